@@ -27,6 +27,10 @@ enum Ep {
     TokenMintFrom,
     /// the minter "mints" a negative amount to a holder who authorised nothing: always refused
     TokenMintFromNegative,
+    /// the token's owner, naming itself as spender and authorising, spends / burns from a holder who
+    /// granted it no allowance: always refused
+    TokenOwnerTransferFrom,
+    TokenOwnerBurnFrom,
     /// the holder B sets A's allowance to zero (B is the named address here); afterwards A's
     /// delegated operations against B must be refused
     TokenRevoke,
@@ -53,8 +57,8 @@ enum Ep {
     OperatorsExecute,
     ExampleSend,
 }
-const EPS: [Ep; 26] = [
-    Ep::TokenApprove, Ep::TokenTransfer, Ep::TokenTransferFrom, Ep::TokenBurn, Ep::TokenBurnFrom, Ep::TokenTransferFromNoAllowance, Ep::TokenBurnFromNoAllowance, Ep::TokenMintFrom, Ep::TokenMintFromNegative, Ep::TokenRevoke, Ep::TokenShorten, Ep::TokenShortenExact, Ep::TokenRevokePast, Ep::AdvanceLedgers,
+const EPS: [Ep; 28] = [
+    Ep::TokenApprove, Ep::TokenTransfer, Ep::TokenTransferFrom, Ep::TokenBurn, Ep::TokenBurnFrom, Ep::TokenTransferFromNoAllowance, Ep::TokenBurnFromNoAllowance, Ep::TokenMintFrom, Ep::TokenMintFromNegative, Ep::TokenOwnerTransferFrom, Ep::TokenOwnerBurnFrom, Ep::TokenRevoke, Ep::TokenShorten, Ep::TokenShortenExact, Ep::TokenRevokePast, Ep::AdvanceLedgers,
     Ep::GasPay, Ep::GasAdd, Ep::GwCallContract, Ep::GwValidateMessage, Ep::GwValidateForeign, Ep::ItsDeploy, Ep::ItsDeployRemote,
     Ep::ItsDeployRemoteCanonical, Ep::ItsTransfer, Ep::ItsTransferCanonical, Ep::OperatorsExecute, Ep::ExampleSend,
 ];
@@ -150,7 +154,7 @@ impl C07 {
         let env = &w.env;
         let target_of = |ep: Ep| -> Address {
             match ep {
-                Ep::TokenApprove | Ep::TokenTransfer | Ep::TokenTransferFrom | Ep::TokenBurn | Ep::TokenBurnFrom | Ep::TokenTransferFromNoAllowance | Ep::TokenBurnFromNoAllowance | Ep::TokenMintFrom | Ep::TokenMintFromNegative | Ep::TokenRevoke | Ep::TokenShorten | Ep::TokenShortenExact | Ep::TokenRevokePast | Ep::AdvanceLedgers => ctx.tok.clone(),
+                Ep::TokenApprove | Ep::TokenTransfer | Ep::TokenTransferFrom | Ep::TokenBurn | Ep::TokenBurnFrom | Ep::TokenTransferFromNoAllowance | Ep::TokenBurnFromNoAllowance | Ep::TokenMintFrom | Ep::TokenMintFromNegative | Ep::TokenOwnerTransferFrom | Ep::TokenOwnerBurnFrom | Ep::TokenRevoke | Ep::TokenShorten | Ep::TokenShortenExact | Ep::TokenRevokePast | Ep::AdvanceLedgers => ctx.tok.clone(),
                 Ep::GasPay | Ep::GasAdd => iw.gas.clone(),
                 Ep::GwCallContract | Ep::GwValidateMessage | Ep::GwValidateForeign => iw.gw.clone(),
                 Ep::OperatorsExecute => ctx.ops.clone(),
@@ -180,6 +184,8 @@ impl C07 {
             Ep::TokenTransferFromNoAllowance => ("transfer_from", vec![n, ctx.s.to_val(), ctx.b.to_val(), amt]),
             Ep::TokenBurnFromNoAllowance => ("burn_from", vec![n, ctx.s.to_val(), amt]),
             Ep::TokenMintFrom => ("mint_from", vec![n, ctx.s.to_val(), amt]),
+            Ep::TokenOwnerTransferFrom => ("transfer_from", vec![iw.owner.to_val(), ctx.s.to_val(), ctx.b.to_val(), w.v(1i128)]),
+            Ep::TokenOwnerBurnFrom => ("burn_from", vec![iw.owner.to_val(), ctx.s.to_val(), w.v(1i128)]),
             Ep::TokenMintFromNegative => ("mint_from", vec![n, ctx.s.to_val(), w.v(if zero { 0i128 } else { -1 })]),
             // revocation: holder B approves A for zero (the named, authorising address is B)
             Ep::TokenRevoke => ("approve", vec![ctx.b.to_val(), ctx.a.to_val(), w.v(0i128), w.v(w.seq() + 500)]),
@@ -331,6 +337,9 @@ impl Scenario for C07 {
                 if ep == Ep::GwValidateForeign && var != Var::Stranger {
                     continue;
                 }
+                if matches!(ep, Ep::TokenOwnerTransferFrom | Ep::TokenOwnerBurnFrom) && var != Var::Owner {
+                    continue;
+                }
                 if matches!(ep, Ep::TokenRevoke | Ep::TokenShorten | Ep::TokenShortenExact | Ep::TokenRevokePast) && !matches!(var, Var::Counterparty | Var::Named | Var::Stranger | Var::Nobody) {
                     continue;
                 }
@@ -410,7 +419,7 @@ impl Scenario for C07 {
             }
         };
         out.accepted = call.ok;
-        let no_allowance = matches!(ep, Ep::TokenTransferFromNoAllowance | Ep::TokenBurnFromNoAllowance | Ep::TokenMintFromNegative);
+        let no_allowance = matches!(ep, Ep::TokenTransferFromNoAllowance | Ep::TokenBurnFromNoAllowance | Ep::TokenMintFromNegative | Ep::TokenOwnerTransferFrom | Ep::TokenOwnerBurnFrom);
         // the revocation is B's own operation: accepted iff B (the counterparty principal) signs
         if ep == Ep::GwValidateForeign {
             let consumed = call.ok && call.ret == Some(ScVal::Bool(true));
@@ -547,7 +556,7 @@ fn main() {
         let thorough = tier == "thorough";
         let mut o = Opts::new(tier, if thorough { 5 } else { 3 });
         o.min_depth = 2;
-        o.rule = "25 entry points plus ledger advancement (token approve / transfer / transfer_from / burn / burn_from / transfer_from and burn_from against a holder who granted no allowance (always refused) / mint_from / mint_from of a negative amount to a holder who authorised nothing (always refused) / a revocation (with a future and with a zero expiration), a shortening of the allowance and a re-approval of exactly one delegated operation's worth with a near expiration by the holder after which (or after whose expiry) the spender's delegated calls are refused; the holder's allowance is 3 and delegated calls move 2, so a second one exceeds it; gas pay_gas / add_gas; gateway call_contract / validate_message / a stranger's validate_message for the named address's approval (refused, nothing consumed); ITS deploy_interchain_token (naming the counterparty as minter) / deploy_remote_interchain_token / deploy_remote_canonical_token / interchain_transfer of a service-deployed and of a canonical token; operators execute; example send) x 12 authorisation modes {the named address; the counterparty / recipient; the contracts' owner; a stranger; nobody; the named address for an altered argument; the named address for the root call but not the nested debit or gas payment; the named address for the same function with other arguments; the named address being the calling contract; a contract naming someone else; the call naming the called contract itself with nobody authorising; all amounts and gas zero with nobody authorising}, in every state of all histories of successful operations up to the bound; accepted only in the three legitimate modes, ledger bit-identical otherwise; in every state every exported function of the six contracts that the check does not drive by name (found by scanning the source tree) is called unauthorised with arguments built from its parameter types and must not reduce any principal's balance or allowance".into();
+        o.rule = "27 entry points plus ledger advancement (token approve / transfer / transfer_from / burn / burn_from / transfer_from and burn_from against a holder who granted no allowance (always refused; also with the token's owner as the self-authorising spender) / mint_from / mint_from of a negative amount to a holder who authorised nothing (always refused) / a revocation (with a future and with a zero expiration), a shortening of the allowance and a re-approval of exactly one delegated operation's worth with a near expiration by the holder after which (or after whose expiry) the spender's delegated calls are refused; the holder's allowance is 3 and delegated calls move 2, so a second one exceeds it; gas pay_gas / add_gas; gateway call_contract / validate_message / a stranger's validate_message for the named address's approval (refused, nothing consumed); ITS deploy_interchain_token (naming the counterparty as minter) / deploy_remote_interchain_token / deploy_remote_canonical_token / interchain_transfer of a service-deployed and of a canonical token; operators execute; example send) x 12 authorisation modes {the named address; the counterparty / recipient; the contracts' owner; a stranger; nobody; the named address for an altered argument; the named address for the root call but not the nested debit or gas payment; the named address for the same function with other arguments; the named address being the calling contract; a contract naming someone else; the call naming the called contract itself with nobody authorising; all amounts and gas zero with nobody authorising}, in every state of all histories of successful operations up to the bound; accepted only in the three legitimate modes, ledger bit-identical otherwise; in every state every exported function of the six contracts that the check does not drive by name (found by scanning the source tree) is called unauthorised with arguments built from its parameter types and must not reduce any principal's balance or allowance".into();
         (C07 { max_successes: if thorough { 4 } else { 2 } }, o)
     });
 }
